@@ -58,28 +58,54 @@ CLAIMED = {
             "predicate not tied to C10's initializer models; softmax rows and KFL root factors are data of the step relation;"
             " the numeric tie pm.forward compares the composite with the real model after every history; that Keras "
             "re-applies constraints after every optimizer step is runtime behaviour exercised by the histories. "),
-    "C11": ("AST translator -> literal Lean table -> decide +kernel obligations + generic round-trip theorem; exact correspondence "
-            "of stored values via the driver; differential oracle on real from_config / Keras JSON / save-load at k in {0,1,5} steps",
-            "Theorems (Props/C11.lean): a generic theorem (roundtrip) proves that any class whose get_config keys equal its "
-            "constructor parameters, each read through an idempotent normaliser, round-trips through from_config to an equal "
-            "config; its premises are RE-PROVED ON EVERY RUN over a table extracted from the current source of all 39 classes "
-            "(table_rows_ok; the four premade models are the only exceptions: F-C11-d); the utils canonicalisers are idempotent and "
-            "tuple/list-insensitive; seed-derived structures are functions of the config.",
-            "4/C11", "PARTIAL: Keras composites (initializers.get/serialize, regularizer lists, nested configs) are idempotence "
-            "hypotheses exercised on the real objects; h5/.keras/SavedModel machinery and crash points during save are runtime "
-            "only; findings F-C11-d..h listed. "),
+    "C11": ("AST translator -> literal Lean table -> decide +kernel obligations + generic round-trip theorem; exact "
+            "correspondence of stored values via the driver; differential oracle on real from_config / Keras JSON / save-load"
+            " at k in {0,1,5} steps",
+            "Theorems (Props/C11.lean, C11Seed.lean, C11Rebuild.lean): a generic theorem (roundtrip) proves that any class "
+            "whose get_config keys equal its constructor parameters, each read through an idempotent normaliser, round-trips "
+            "through from_config to an equal config; its premises are RE-PROVED ON EVERY RUN over a table extracted from the "
+            "current source of all 39 classes (table_rows_ok; the four premade models are the only exceptions: F-C11-d; the "
+            "eight _Config rows are derived from the AST of the real base class); the utils canonicalisers are idempotent and"
+            " tuple/list-insensitive. Seed-derived structure: with an integer stored random_seed the RTL structure is a "
+            "function of (stored config, input shapes) for ANY generator and independent of the state of the process at the "
+            "build (rtl_rebuild_structure), so a rebuilt layer with the original weights returns identical outputs "
+            "(rtl_rebuild_outputs); the hypothesis cannot be dropped at model level (rtl_seed_none_not_a_function). Rebuild "
+            "re-verifies: the values Lattice.__init__ / Linear.__init__ store are accepted again with the same result "
+            "(latticeLayer_rebuild_accepted, linearLayer_rebuild_accepted).",
+            "4/C11",
+            "PARTIAL: fromConfig models key passing only (`succeeds` in roundtrip means exactly that); re-running "
+            "verify_hyperparameters at the rebuild is proved for the two normalising layers and exercised on the real objects"
+            " for every class; Keras composites (initializers.get/serialize, regularizer lists, nested configs) are "
+            "idempotence hypotheses exercised on the real objects; h5/.keras/SavedModel machinery and crash points during "
+            "save are runtime only; NumPy's generator is a parameter of the seed theorems; rtl_structure_deterministic / "
+            "random_ensemble_deterministic are congruences. Known findings F-C11-d (premade dtype), F-C11-g; "
+            "F-C11-a/b/c/e/f/h and F-C11-i (random_seed=None gave a different structure at every build; 3372acf stores a "
+            "drawn seed) are fixed in /repo. "),
     "C16": ("small-domain cross-product translator -> pooled mixed-radix Lean table -> decide +kernel; stage-spec lemmas by "
             "inversion of the Except monad; real-layer exercise oracle keyed (layer, stage, exception, predicate)",
-            "Theorems (Props/C16.lean): every verify_hyperparameters, the constructor checks around them and the canonicalisers "
-            "are modelled as Raw -> Except Err Cfg; agreement with the REAL constructors is proved over 52 501 tabulated rows (16 tables) "
-            "regenerated from /repo on every run (accept_*) and checked through the driver on ~2e5 more (thorough); accepted "
-            "configurations have every index in range and every guard the projection models need (verifyLattice_cfgWF gives "
-            "C01's CfgWF; PWL piece lengths > 0; ...); synonymous spellings canonicalise equally.",
-            "4/C16", "`accepted => projection/evaluation total and finite` is proved per layer: acceptance yields every guard the "
-            "projection/evaluation models need (CfgWF for C01, sizes != [], scalings != 0, lengths > 0, buckets >= 1, integer indices, acyclic "
-            "categorical and linear pair sets via kahnAcyclic sound+complete) and the C01/C02/C04/C05/C06/C08/C09/C10 *Accepted corollaries use them; not one "
-            "single statement. Float32 representability of accepted hyperparameters is outside the rational model (pinned finding F-C16-v); "
-            "remaining findings F-C16-f, m (F-C16-h fixed by ebf18ed); the C16 defects fixed in /repo are listed in known_findings.json `fixed`. The verifier model has not yet followed two late repairs of /repo: (d, d) dominance / joint-monotonicity pairs (18dd711) and the validation of normalization_order (4f3f7ef). "),
+            "Theorems (Props/C16.lean, C16Full.lean): every verify_hyperparameters, the constructor checks around them and "
+            "the canonicalisers are modelled as Raw -> Except Err Cfg, including the arguments the constructors only store "
+            "(units, num_projection_iterations, split_outputs, normalization_order, the constraint arguments of "
+            "Lattice.__init__, KFL sizes); agreement with the REAL constructors is proved over 64 693 tabulated rows (18 "
+            "tables) regenerated from /repo on every run (accept_*) and checked through the driver on ~2e5 more (thorough); "
+            "accepted configurations have every index in range and every guard the projection models need "
+            "(verifyLattice_cfgWF gives C01's CfgWF; PWL piece lengths > 0; dominance pairs name two different dimensions: "
+            "verifyLattice_pairs_distinct; ...); the stored arguments are verified: units_verified, iterations_verified, "
+            "normOrder_verified (the guard of tf.norm in the first projection passes), kflInteger_verified, "
+            "emptyTuple_accepted; layer => library bridges latticeBuild_verify (whatever Lattice.__init__ + build accepts is "
+            "an accepted verifyLattice of the wrapped arguments), kflBuild_ok; synonymous spellings canonicalise equally "
+            "(lattice, PWL, linear, KFL, categorical pairs, RTL regularisers).",
+            "4/C16",
+            "`accepted => projection/evaluation total and finite` is proved per layer: acceptance yields every guard the "
+            "projection/evaluation models need (CfgWF for C01, sizes != [], scalings != 0, lengths > 0, buckets >= 1, integer"
+            " indices, acyclic categorical and linear pair sets via kahnAcyclic sound+complete) and the "
+            "C01/C02/C04/C05/C06/C08/C09/C10 *Accepted corollaries use them; not one single statement. The tables tabulate "
+            "the CONSTRUCTOR outcome; the first use (build, first projection) is observed on the real layers. "
+            "premade_lib.verify_config is modelled on a typed description whose Python-side classification is trusted. "
+            "Float32 representability of accepted hyperparameters is outside the rational model (pinned finding F-C16-v); "
+            "remaining findings F-C16-f, m; the C16 defects fixed in /repo (incl. F-C16-af/ag/ah/ai/aj/ak of the statement "
+            "audit: units, num_projection_iterations, normalization_order = F-C06-b, KFL integers, empty tuples, (d, d) pairs"
+            " = F-C08-c) are listed in known_findings.json `fixed`. "),
     "C04": ("Lean 4 theorems on an executable model of pwl_calibration_lib.project_all_constraints (Dykstra loop with "
             "last_change, finalisation, squeeze) + differential correspondence (PWLCalibrationConstraints, layer wiring, "
             "private stages) + oracle",
@@ -342,8 +368,9 @@ CLAIMED = {
             "for it; its corner map is proved NOT to be a Euclidean projection, rangeDom_corner_not_projection) and is tested"
             " against scipy SLSQP / violation -> 0 each run; the RATE of convergence and the PWL iterative projection's limit"
             " are covered by the oracle here and by C04's model. From acceptance the side conditions `no range dominance` and"
-            " `no (d, d) dominance / joint-monotonicity pair` remain (verifyLattice_cfgShape); the latter only because the "
-            "verifier model has not yet followed /repo's repair 18dd711 (F-C08-c). F-C08-a (dict key without direction), "
+            " `no (d, d) dominance / joint-monotonicity pair` remain hypotheses of verifyLattice_cfgShape; the latter is still "
+            "carried but implied by acceptance since /repo's repair 18dd711 (verifyLattice_pairs_distinct in "
+            "Props/C16Full.lean, selfPair_rejected). F-C08-a (dict key without direction), "
             "F-C08-c, F-C08-d ('Valley' projected onto the peak cone) are fixed in /repo. "),
     "C06": ("Lean 4 theorems on an executable model of linear_lib.project / categorical project / internal_utils "
             "partial-order projection + differential correspondence against the real constraints",
